@@ -1780,6 +1780,9 @@ func (p *Parser) parseRightSideExpression(left ast.BooleanExpression, single boo
 		if p.curToken.Literal == token.RPAREN {
 			return grouped, impData, nil
 		}
+		if p.curToken.Type != token.AND && p.curToken.Type != token.OR {
+			return nil, nil, NewParseError(p.curToken, fmt.Sprintf("expected '&&', '||' or ')' in boolean expression, but got '%s' instead", p.curToken.Literal))
+		}
 		operator = p.curToken.Type
 		if negated {
 			operator = getNegatedBooleanOperator(p.curToken.Type)
